@@ -42,7 +42,7 @@ def correspondence(ctx):
         u.meta = {"i": tag, "twin": True}
         scns.append(s)
         twins.append(u)
-    for coin, nout in (("bitcoin", 20000 if not ctx.thorough() else 70000), ("litecoin", 40000)):
+    for coin, nout in (("bitcoin", 20000 if not ctx.thorough() else 140000), ("litecoin", 70000)):
         pool = [b"\x76\xa9\x14" + GC.rb(r, 20) + b"\x88\xac" for _ in range(3)]
         txs = [GH.coinbase(0, [(1, pool[0])])]
         per = 2500
